@@ -321,11 +321,123 @@ fn replay(v: &Value) -> Result<(), String> {
     Ok(())
 }
 
+/// Thorough tier: the `unsafe` feature sets executed by Miri (optimised profile settings, i.e. without
+/// debug assertions, so that `invariant!` really is `assert_unchecked`) on a reduced corpus. Miri is only
+/// the *executor* that makes undefined behaviour visible; the oracle is still the default/release transcript.
+fn run_miri(ctx: &Ctx, n: usize) -> SubResult {
+    let t0 = Instant::now();
+    let name = "miri_unsafe_builds";
+    let rule = "reduced corpus (generator inputs <= 2 KiB, no hook lines) evaluated by the `unsafe` and `unsafe+opt-reduce-fnv-table` probes under Miri: no undefined behaviour reported and transcripts identical to default/release; non-trivial = lines without error markers; distinct by line";
+    let mut stats = Stats::default();
+    let extra = BTreeMap::new();
+    let mk_fail = |msg: String, case: Value, hf: bool, stats: Stats| SubResult {
+        name: name.to_string(),
+        rule: rule.to_string(),
+        stats,
+        samples: vec![],
+        exhaustive: false,
+        failure: Some(Failure { subcheck: name.to_string(), message: msg, case, harness_fault: hf }),
+        wall_s: t0.elapsed().as_secs_f64(),
+        extra: BTreeMap::new(),
+    };
+    let corpus: Vec<Line> = make_corpus(ctx, n * 3)
+        .into_iter()
+        .filter(|l| match l {
+            Line::Gen { segs, .. } => segs.iter().all(|s| match s {
+                Seg::Bytes(b) => b.len() <= 2048,
+                Seg::Zeros(z) => *z == 0,
+            }),
+            _ => true,
+        })
+        .take(n)
+        .collect();
+    let dir = root().join("target").join("c14");
+    let _ = std::fs::create_dir_all(&dir);
+    let path = dir.join(format!("miri-corpus-{}-{}.jsonl", ctx.seed, std::process::id()));
+    let body: String = corpus.iter().map(|l| serde_json::to_string(l).unwrap() + "\n").collect();
+    if let Err(e) = std::fs::write(&path, body) {
+        return mk_fail(format!("HARNESS-PANIC: cannot write corpus: {}", e), Value::Null, true, stats);
+    }
+    let base = match run_probe("f-default", "release", &path) {
+        Ok(b) => b,
+        Err(e) => return mk_fail(format!("HARNESS-PANIC: {}", e), Value::Null, true, stats),
+    };
+    let feats = ["f-unsafe", "f-unsafe-reduce-fnv"];
+    let outs: Vec<(String, Result<std::process::Output, std::io::Error>)> = std::thread::scope(|sc| {
+        let hs: Vec<_> = feats
+            .iter()
+            .map(|f| {
+                let path = &path;
+                sc.spawn(move || {
+                    let o = std::process::Command::new("cargo")
+                        .current_dir(root())
+                        .args(["+nightly", "miri", "run", "--release", "-p", "cfgprobe", "--no-default-features", "--features", f, "--target-dir"])
+                        .arg(root().join("target-miri").join(f))
+                        .arg("--")
+                        .arg("eval")
+                        .arg(path)
+                        .env("MIRIFLAGS", "-Zmiri-disable-isolation")
+                        .env("RUSTFLAGS", "--cfg a4lg_ffuzzy_verif")
+                        .env("CARGO_NET_OFFLINE", "true")
+                        .output();
+                    (f.to_string(), o)
+                })
+            })
+            .collect();
+        hs.into_iter().map(|h| h.join().expect("miri thread")).collect()
+    });
+    let _ = std::fs::remove_file(&path);
+    for (f, o) in outs {
+        let o = match o {
+            Ok(o) => o,
+            Err(e) => return mk_fail(format!("HARNESS-PANIC: cannot run cargo miri: {}", e), Value::Null, true, stats),
+        };
+        let stdout = String::from_utf8_lossy(&o.stdout);
+        let stderr = String::from_utf8_lossy(&o.stderr);
+        let lines: Vec<&str> = stdout.lines().filter(|l| !l.is_empty()).collect();
+        stats.evaluations += lines.len() as u64;
+        stats.class(&format!("miri:{}", f));
+        let ub = stderr.contains("Undefined Behavior");
+        for i in 0..corpus.len() {
+            let got = lines.get(i).copied().unwrap_or("MISSING");
+            if got != base[i] {
+                let lj = serde_json::to_value(&corpus[i]).unwrap();
+                let why = if ub && got == "MISSING" {
+                    let at = stderr.find("Undefined Behavior").unwrap_or(0);
+                    format!("Miri reports undefined behaviour while evaluating this line: {}", stderr[at..].chars().take(600).collect::<String>())
+                } else {
+                    format!("transcript differs: got {} expected {}", got.chars().take(300).collect::<String>(), base[i].chars().take(300).collect::<String>())
+                };
+                return mk_fail(format!("{} under Miri, line {}: {}", f, i, why), json!({"line": lj, "config": format!("{}/miri", f)}), false, stats);
+            }
+        }
+        if !o.status.success() {
+            let tail: String = stderr.chars().rev().take(800).collect::<String>().chars().rev().collect();
+            return mk_fail(format!("HARNESS-PANIC: cargo miri run failed for {} although all transcript lines match: {}", f, tail), Value::Null, true, stats);
+        }
+    }
+    for (i, l) in corpus.iter().enumerate() {
+        if !base[i].contains('!') && !base[i].contains("ERR") {
+            stats.nontrivial(oracle::fingerprint(serde_json::to_string(l).unwrap().as_bytes()));
+        }
+    }
+    let samples = corpus.iter().take(2).map(|l| serde_json::to_value(l).unwrap()).collect();
+    SubResult { name: name.to_string(), rule: rule.to_string(), stats, samples, exhaustive: false, failure: None, wall_s: t0.elapsed().as_secs_f64(), extra }
+}
+
 pub fn subchecks(tier: Tier) -> Vec<SubCheck> {
     let n = tier.pick(60_000usize, 1_000_000usize);
-    vec![SubCheck {
+    let mut v = vec![SubCheck {
         name: "transcripts_across_configurations",
         run: Box::new(move |ctx| run_c14(ctx, n)),
         replay: Box::new(replay),
-    }]
+    }];
+    if tier == Tier::Thorough {
+        v.push(SubCheck {
+            name: "miri_unsafe_builds",
+            run: Box::new(move |ctx| run_miri(ctx, 400)),
+            replay: Box::new(replay),
+        });
+    }
+    v
 }
